@@ -58,7 +58,10 @@ def bcastRow {β : Type} (n : Nat) (y : List β) : List β :=
 def whereNan (mask : List Bool) (x : List (X α)) : List (X α) :=
   List.zipWith (fun m v => sel m v nan) (bcastRow x.length mask) x
 
-/-! ## the five `defuzzify` bodies on one row (`x`: midpoints, `y`: memberships) -/
+/-! ## the five `defuzzify` bodies on one row (`x`: midpoints, `y`: memberships)
+
+Values the array code computes once per row (`area[:, [-1]]`, `area.min()`, `y.max()`) are arguments of small
+helper functions (`scoresWith`, `maskEq`, `maxMaskWith`), so that the driver also evaluates them once. -/
 
 /-- `((x * y).sum(axis=1) / y.sum(axis=1))` -/
 def centroid (x y : List (X α)) : X α :=
